@@ -1,1 +1,42 @@
 // harness bodies for h2 src/frame/head.rs (compiled in-crate as `verif_h`, feature "verif")
+use super::*;
+
+/// Independent RFC 9113 §4.1 frame-header parser (reference; shares no code with h2).
+/// returns (length, type, flags, reserved bit, stream id)
+pub(crate) fn ref_parse_head(b: &[u8; 9]) -> (u32, u8, u8, bool, u32) {
+    let len = ((b[0] as u32) << 16) | ((b[1] as u32) << 8) | (b[2] as u32);
+    let sid = ((b[5] as u32) << 24) | ((b[6] as u32) << 16) | ((b[7] as u32) << 8) | (b[8] as u32);
+    (len, b[3], b[4], sid >> 31 == 1, sid & 0x7fff_ffff)
+}
+
+/// C08.head / C12.head: `Head::parse` on every 9-byte string agrees with the
+/// reference parser, ignores the reserved bit, maps unknown types to `Unknown`;
+/// `Head::encode` writes what the reference parser reads back.
+pub fn c12_head_parse_encode() {
+    let b: [u8; 9] = kani::any();
+    let h = Head::parse(&b);
+    let (_len, ty, flags, _r, sid) = ref_parse_head(&b);
+    assert!(u32::from(h.stream_id()) == sid, "Head::parse stream id");
+    assert!(h.flag() == flags, "Head::parse flags");
+    if ty <= 9 {
+        assert!(h.kind() as u8 == ty, "Head::parse kind");
+    } else {
+        assert!(h.kind() == Kind::Unknown, "unknown frame type not mapped to Unknown");
+    }
+    // encode what was parsed with an arbitrary 24-bit length
+    let plen: usize = kani::any();
+    kani::assume(plen < (1 << 24));
+    if ty <= 9 {
+        let mut out = [0u8; 9];
+        let mut dst = &mut out[..];
+        h.encode(plen, &mut dst);
+        assert!(dst.len() == 0, "Head::encode must write exactly 9 bytes");
+        let (l2, t2, f2, r2, s2) = ref_parse_head(&out);
+        assert!(l2 as usize == plen, "Head::encode length field");
+        assert!(t2 == ty && f2 == flags && s2 == sid, "Head::encode fields");
+        assert!(!r2, "Head::encode sets the reserved bit");
+    }
+    kani::cover!(ty > 9, "unknown_kind");
+    kani::cover!(b[5] & 0x80 != 0, "reserved_bit_set");
+    kani::cover!(true, "end");
+}
